@@ -138,9 +138,10 @@ structure State where
   escrow : List ((Nat × Bytes) × Nat)   -- refund scheduled: (height, account bytes) ↦ wei
   pending : List (Nat × List (Bytes × Nat))  -- context["refund"] of the block being executed
   height : Nat
+  pk : List (Bytes × Bytes) := []   -- MinerManager.pkCache: id ↦ public key; a LevelDB of its own, outside the journal
 
 def State.empty (h : Nat) : State :=
-  { live := fun _ => [], trie := fun _ => [], bal := [], code := [], escrow := [], pending := [], height := h }
+  { live := fun _ => [], trie := fun _ => [], bal := [], code := [], escrow := [], pending := [], height := h, pk := [] }
 
 def State.setLive (st : State) (d : DbId) (s : Store) : State :=
   { st with live := fun j => if j = d then s else st.live j }
@@ -155,6 +156,11 @@ def State.isContract (st : State) (a : Bytes) : Bool := st.code.contains a
 
 def State.escOf (st : State) (h : Nat) (a : Bytes) : Nat := (st.escrow.lookup (h, a)).getD 0
 def State.setEsc (st : State) (h : Nat) (a : Bytes) (n : Nat) : State := { st with escrow := ((h, a), n) :: st.escrow }
+
+/-- `MinerManager.GetPubkey`. -/
+def State.pkOf (st : State) (id : Bytes) : Option Bytes := st.pk.lookup id
+/-- `pkCache.Put`. -/
+def State.putPk (st : State) (id key : Bytes) : State := { st with pk := (id, key) :: st.pk }
 
 def slotStake (cfg : Cfg) (id : Bytes) : Bytes := cfg.H id
 def slotAcct (cfg : Cfg) (id : Bytes) : Bytes := cfg.H (cfg.H id)
@@ -408,6 +414,14 @@ def runTx (cfg : Cfg) (st : State) (tx : Tx) : String × State :=
     let r := execute cfg st1 tx
     if r.1 = "ok" then r else (r.1, { st1 with pending := r.2.pending })
 
+/-- The one write outside the account state: `AddMiner` ends with `pkCache.Put(miner.Id, miner.PublicKey)` — after
+    the last rejecting return and after `UpdateMiner` (pinned by `Generated/C20Facts`), so only an accepted
+    application reaches it. Nothing inside the transaction reads the cache, so it is applied to `runTx`'s result. -/
+def pkAfter (tx : Tx) (r : String × State) : String × State :=
+  match tx with
+  | .apply _ id _ _ _ pk _ => if r.1 = "ok" then (r.1, r.2.putPk id pk) else r
+  | _ => r
+
 /-- `RefundManager.Add` for one height. -/
 def escrowAddList (st : State) (h : Nat) : List (Bytes × Nat) → State
   | [] => st
@@ -440,7 +454,7 @@ inductive Op
 deriving Repr
 
 def step (cfg : Cfg) (st : State) : Op → State
-  | .tx t => (runTx cfg st t).2
+  | .tx t => (pkAfter t (runTx cfg st t)).2
   | .endBlock n => endBlock st n
 
 def run (cfg : Cfg) (st : State) (ops : List Op) : State := ops.foldl (step cfg) st
@@ -499,7 +513,9 @@ def vmUnstakeAll (cfg : Cfg) (st : State) (contract : Bytes) : Bool × State :=
 /-- `MinerManager.InsertMiner` (genesis: no debit, no account/id cross-check). -/
 def insertMiner (cfg : Cfg) (st : State) (info : Info) (stake status : Nat) (account : Bytes) : Int × State :=
   if (st.live (dbOfType info.typ)).get info.id ≠ [] then (-1, st)
-  else (1, updateMiner cfg st { id := info.id, typ := info.typ, stake := stake, status := status,
-                                 applyHeight := info.applyHeight, account := account } (some info))
+  else
+    let m : Miner := { id := info.id, typ := info.typ, stake := stake, status := status,
+                       applyHeight := info.applyHeight, account := account }
+    (1, updateMiner cfg (st.putPk info.id info.pk) m (some info))
 
 end Rangers.Miner
